@@ -8,6 +8,7 @@ import (
 	"encoding/json"
 	"fmt"
 	"os"
+	"runtime"
 	"runtime/debug"
 	"testing"
 	"time"
@@ -59,6 +60,11 @@ func treeNodes(b, d int) int64 {
 	}
 	return n
 }
+
+// ballast keeps the heap goal high: every bubble ends with two forced GCs (timer-pool
+// drain), and without it the scavenger hands the freed pages back to the OS each time.
+// Never written: not resident.
+var ballast = make([]byte, 256<<20)
 
 func TestCheck(t *testing.T) {
 	vfw.Main(t, "C17", func(c *vfw.Ctx) {
@@ -137,6 +143,8 @@ func TestCheck(t *testing.T) {
 		}
 
 		lap("outbound")
+		ballast = nil // the assembler search runs no bubbles; a big heap goal only costs it page faults
+		runtime.GC()
 
 		// ---- INBOUND (a) ----
 		D := 6
@@ -171,6 +179,7 @@ func TestCheck(t *testing.T) {
 		}
 
 		lap("inbound_a")
+		ballast = make([]byte, 256<<20)
 
 		// ---- INBOUND (b) ----
 		LD := 3
